@@ -16,7 +16,8 @@ schema, tof = c04.is_type_of_variant(schema, seed)
 assert src == case['source'], (src, case['source'])
 value_fn = make_value(schema, seed, case['fault_rate']) if seed % 7 != 6 else make_value(schema, seed, 0.3, kinds=('iter_raise', 'null'))
 run, sched, hz, obs = run_incremental(schema, parse(src), variables, value_fn, case['schedule_seed'], p_async=case['p_async'], policy=case['policy'], early=case['early'],
-                                      p_iter=0.9 if seed % 11 == 6 else 0.35, source_burst=[1, 1, 1, 3, 8][case['schedule_seed'] % 5], tof=tof)
+                                      p_iter=0.9 if seed % 11 == 6 else 0.35, source_burst=[1, 1, 1, 3, 8][case['schedule_seed'] % 5], tof=tof,
+                                      p_double=[0.0, 0.0, 0.35, 0.7][((case['schedule_seed'] * 2654435761) >> 7) % 4])
 print(src)
 print('initial', json.dumps(obs.initial))
 for p in obs.payloads:
